@@ -51,6 +51,10 @@ def main():
                 break
     cmdm = re.search(r"^\s*(go test [^\n]*)$", demo_md, re.M)
     demo_cmd = cmdm.group(1).strip() if cmdm else None
+    if not demo_target and demo_cmd and demos:
+        pk = [w for w in demo_cmd.split() if w.startswith("./")]
+        if pk:
+            demo_target = os.path.join(pk[-1].strip("./").rstrip("/").replace("...", ""), demos[0]).replace("//", "/")
     if not demo_target or not demo_cmd:
         print("cannot parse demo.md: target=%s cmd=%s" % (demo_target, demo_cmd))
         sys.exit(2)
